@@ -57,13 +57,14 @@ type Method struct {
 }
 
 type File struct {
-	Dirs    []string `json:"dirs"` // directories below the analysed root
-	Name    string   `json:"name"` // file name = Cls + ".java"
-	Pkg     string   `json:"pkg"`
-	Cls     string   `json:"cls"`
-	Imports []string `json:"imports"` // text after `import `
-	Fields  []string `json:"fields"`  // field declarations, text without the final `;`
-	Methods []Method `json:"methods"`
+	Dirs       []string `json:"dirs"` // directories below the analysed root
+	Name       string   `json:"name"` // file name = Cls + ".java"
+	Pkg        string   `json:"pkg"`
+	Cls        string   `json:"cls"`
+	Imports    []string `json:"imports"`    // text after `import `
+	ClassAnnos []Anno   `json:"classAnnos"` // annotations of the class itself
+	Fields     []string `json:"fields"`     // field declarations, text without the final `;`
+	Methods    []Method `json:"methods"`
 }
 
 type Extra struct { // a file that is not a Java class (resources, notes)
@@ -173,6 +174,9 @@ func normalize(c *Case) {
 		}
 		if f.Fields == nil {
 			f.Fields = []string{}
+		}
+		if f.ClassAnnos == nil {
+			f.ClassAnnos = []Anno{}
 		}
 		if f.Methods == nil {
 			f.Methods = []Method{}
@@ -292,6 +296,9 @@ func viaCLI(scratch, root string, o *Obs) {
 			o.HasTable = true
 			continue
 		}
+		if strings.Trim(cells[0]+cells[1]+cells[2], "-") == "" {
+			continue // the rule below the header
+		}
 		n, err := strconv.Atoi(cells[2])
 		if err != nil {
 			fmt.Fprintln(os.Stderr, "harness: table row not understood:", ln)
@@ -328,7 +335,6 @@ func one(raw json.RawMessage) interface{} {
 	if os.Getenv("TESTSMELL_KEEP") != "" {
 		// development aid: keep the rendered tree
 		fmt.Fprintln(os.Stderr, "kept:", root)
-		defer func() {}()
 	}
 	if c.Input.Via == "cli" {
 		viaCLI(scratch, root, &rec.Observed)
@@ -342,6 +348,11 @@ func one(raw json.RawMessage) interface{} {
 }
 
 func abnormal(raw json.RawMessage, timeout bool, stderr string) interface{} {
+	if !timeout && strings.Contains(stderr, "harness:") {
+		// the harness itself gave up (tool problem, output not understood): no verdict, never an observation
+		fmt.Fprintln(os.Stderr, "testsmell:", short(stderr, 600))
+		os.Exit(2)
+	}
 	var c Case
 	json.Unmarshal(raw, &c)
 	normalize(&c)
